@@ -124,10 +124,20 @@ fn mode_write(cases: &[Value], trace: &Trace) {
         let lf = gs(c, "listfile");
         let mut files_json = Vec::new();
         let mut b = ArchiveBuilder::new()
-            .version(if ver == 0 { FormatVersion::V1 } else { FormatVersion::V2 })
+            .version(match ver {
+                0 => FormatVersion::V1,
+                1 => FormatVersion::V2,
+                2 => FormatVersion::V3,
+                _ => FormatVersion::V4,
+            })
             .block_size(shift)
             .default_compression(method_of(lf))
             .listfile_option(ListfileOption::Generate);
+        // V3/V4: the builder writes HET/BET tables; optionally compressed (zlib / bzip2)
+        let tablecomp = c.get("tablecomp").and_then(|x| x.as_str()).unwrap_or("none");
+        if ver >= 2 && tablecomp != "none" {
+            b = b.compress_tables(true).table_compression(method_of(tablecomp));
+        }
         let crc = c.get("crc").and_then(|x| x.as_bool()).unwrap_or(false);
         if crc {
             // sector checksums on; the (attributes) file that generate_crcs switches on is switched off again
@@ -177,7 +187,7 @@ fn mode_write(cases: &[Value], trace: &Trace) {
         let _ = std::fs::remove_file(&path);
         // the last one differs from a (possibly present) name only in the case of a non-ASCII letter
         let absent = ["absent.txt", "Data\\File99.bin", "Interface\\Glue\\caf\u{c9}.txt"];
-        trace.ev(json!({"ev":"Archive","case":id,"dir":1,"ver":ver,"shift":shift,"listfile":lf,"crc":crc,"res":res,
+        trace.ev(json!({"ev":"Archive","case":id,"dir":1,"ver":ver,"shift":shift,"listfile":lf,"crc":crc,"res":res,"tablecomp":tablecomp,
             "alen": bytes.len(), "bytes": bytes_json(&bytes), "files": files_json, "locfiles": loc_json,
             "absent": absent.iter().map(|a| json!({"name": a, "nb": bytes_json(a.as_bytes())})).collect::<Vec<_>>() }));
     }
@@ -288,6 +298,36 @@ fn list_of(o: &mut Opened) -> Value {
     }
 }
 
+/// What the library itself says about a V4 archive's digests (`get_info().md5_status`, "n/a" for other versions or
+/// after a failure) and which of the HET/BET/hash/block tables it loaded. Observations only.
+fn info_of(o: &mut Opened) -> (Value, Value) {
+    let na = || json!({"res":"n/a","hash":true,"block":true,"hiblock":true,"het":true,"bet":true,"header":true});
+    let Some(mut a) = o.ar.take() else {
+        return (na(), json!({"het": false, "bet": false, "hash": false, "block": false}));
+    };
+    let tabs = json!({"het": a.het_table().is_some(), "bet": a.bet_table().is_some(),
+        "hash": a.hash_table().is_some(), "block": a.block_table().is_some()});
+    match with_watchdog(std::time::Duration::from_secs(30), move || {
+        let r = a.get_info();
+        (a, r)
+    }) {
+        Outcome::Done((a, r)) => {
+            o.ar = Some(a);
+            let md5 = match r {
+                Ok(info) => match info.md5_status {
+                    Some(m) => json!({"res":"ok","hash":m.hash_table_valid,"block":m.block_table_valid,"hiblock":m.hi_block_table_valid,
+                        "het":m.het_table_valid,"bet":m.bet_table_valid,"header":m.header_valid}),
+                    None => na(),
+                },
+                Err(e) => json!({"res":format!("err:{}", variant_name(&e)),"hash":false,"block":false,"hiblock":false,"het":false,"bet":false,"header":false}),
+            };
+            (md5, tabs)
+        }
+        Outcome::Panic(_) => (json!({"res":"panic","hash":false,"block":false,"hiblock":false,"het":false,"bet":false,"header":false}), tabs),
+        Outcome::Hang => (json!({"res":"hang","hash":false,"block":false,"hiblock":false,"het":false,"bet":false,"header":false}), tabs),
+    }
+}
+
 fn mode_read(cases: &[Value], trace: &Trace) {
     // a wrong key makes the library read garbage sector offsets and allocate up to 4 GB per attempt:
     // two threads only; events are written in case order afterwards (deterministic trace)
@@ -297,13 +337,18 @@ fn mode_read(cases: &[Value], trace: &Trace) {
         let id = gi(c, "case");
         let mut evs = Vec::new();
         evs.push(json!({"ev":"Reset","case":id,"dir":2,"ver":gi(c,"ver"),"shift":gi(c,"shift"),"crc":false,
+            "hetbet": c["cfg"]["hetbet"].as_bool().unwrap_or(false), "classic": c["cfg"]["classic"].as_bool().unwrap_or(true),
             "names": c["names"].clone(), "lens": c["lens"].clone(), "toks": c["toks"].clone(),
             "twin": c["twin"].clone(), "cfg": c["cfg"].clone()}));
         let mut std = open_variant(gs(c, "std"));
         // variant archives: file i is laid out under its j-th combination of named deviations in vars[j]
         let mut vars: Vec<Opened> = ga(c, "vars").iter().map(|p| open_variant(p.as_str().unwrap_or(""))).collect();
-        evs.push(json!({"ev":"Open","case":id,"std":std.res,"vars":vars.iter().map(|v| v.res.clone()).collect::<Vec<_>>()}));
-        evs.push(json!({"ev":"List","case":id,"std":list_of(&mut std)}));
+        let (md5, tabs) = info_of(&mut std);
+        evs.push(json!({"ev":"Open","case":id,"std":std.res,"vars":vars.iter().map(|v| v.res.clone()).collect::<Vec<_>>(),
+            "md5": md5, "tables": tabs}));
+        let lstd = list_of(&mut std);
+        let lvars: Vec<Value> = vars.iter_mut().map(list_of).collect();
+        evs.push(json!({"ev":"List","case":id,"std":lstd,"vars":lvars}));
         let labels = ga(c, "labels");
         for (i, n) in ga(c, "names").iter().enumerate() {
             let name = n.as_str().unwrap_or("");
